@@ -194,6 +194,14 @@ def run_property(spec, tier, seed, replay=None, quick_vm=24, thorough_vm=120):
                 if f.get("status") == "known" and f.get("root_cause_tag")}
     if not bs.model_ok:
         run.notes.append("model binary unavailable: " + bs.model_log[-800:])
+    b64 = None
+    if getattr(spec, "uses_bin64", False) and bs.model_ok and not replay:
+        # the theorems about thresholds and ratios are about Lib/Bin64: compare it with CPython's floats on this run
+        from vp import bin64check
+        b64 = bin64check.run(tier, seed, build=False, vm_sample=40 if tier == "quick" else 240)
+        if not b64["ok"]:
+            run.internal_errors.append("Lib/Bin64 disagrees with CPython floats (%d mismatches, first: %r; vm: %r)"
+                                       % (b64["n_mismatches"], b64["mismatches"][:2], b64["vm_mismatches"][:2]))
 
     if replay:
         with open(replay) as f:
@@ -289,7 +297,7 @@ def run_property(spec, tier, seed, replay=None, quick_vm=24, thorough_vm=120):
                           failing_input=False)
         elif not proofs_ok:
             run.violation("proof obligations of %s no longer check" % pid,
-                          {"broken": "theorems of Props/%s.v: %s" % (pid, spec.theorems),
+                          {"broken": "theorems of Props/%s.v: %s" % (pid, ", ".join(bs.theorem_names.get(pid, [])) or spec.theorems),
                            "log": run.notes[-1] if run.notes else ""}, failing_input=False)
         elif not bs.model_ok:
             run.violation("model no longer builds", {"broken": "Model/Entry extraction", "log": bs.model_log[-1500:]},
@@ -317,6 +325,10 @@ def run_property(spec, tier, seed, replay=None, quick_vm=24, thorough_vm=120):
         "exhaustive": False,
         "impl_wall_s": round(time.time() - t0, 1),
     })
+    if b64 is not None:
+        run.coverage["bin64_vs_cpython"] = {k: b64[k] for k in ("evaluations", "by_op", "n_mismatches", "vm_checked",
+                                                                "cmp_equal", "inexact_div", "exhaustive", "seconds")
+                                            if k in b64}
     run.assumptions = list(spec.assumptions) + [
         "input delivered as N-Triples text through raw_graph (the reader is C06's subject); literal contents are "
         "alphanumeric", "decimal rendering of ratios is done by the harness shim with the same Python expressions "
